@@ -11,7 +11,8 @@ RULE = ('every operator x every ordered operand pair of the catalogue x operand 
 ASSUME = ['CPython numeric tower as the reference semantics', 'default BasicQuantity (pint mode off)']
 
 CAT = [0, 1, -1, 2, 7, -3, 2 ** 53, 2 ** 64, 0.5, -0.5, 1e-300, 1e300, float('inf'), float('-inf'),
-       float('nan'), True, False, -0.0, 0.0, 3.75, 255, -256]
+       float('nan'), True, False, -0.0, 0.0, 3.75, 255, -256,
+       2 ** 53 + 1, -(2 ** 63) - 1, 3 ** 40, 10 ** 400, -(10 ** 399), 10 ** 23]   # ints a float cannot hold exactly / at all
 SMALL = [0, 1, -1, 2, 7, -3, 63, 0.5, -0.5, True, False, -0.0, 3.75, float('inf'), float('nan')]
 
 BIN = [
@@ -51,6 +52,8 @@ def too_big(name, a, b):
     if name in ('lshift',) and isinstance(b, int) and not isinstance(b, bool) and b > 4096:
         return True
     if name == 'pow' and isinstance(a, int) and isinstance(b, int) and abs(int(a)) > 1 and abs(int(b)) > 4096:
+        return True
+    if name == 'pow' and isinstance(a, int) and isinstance(b, int) and abs(int(a)) > 10 ** 30 and abs(int(b)) > 16:
         return True
     return False
 
